@@ -181,6 +181,8 @@ type C16PipeCase struct {
 	// Reweight: after the first sync only the configured weights change (same pods, same endpoints) and the
 	// written weights are checked again: a weights-only change must not be mistaken for "nothing changed"
 	Reweight []int `json:"reweight,omitempty"`
+	// ModeGlobal: blue-green-mode comes from the global ConfigMap instead of an annotation
+	ModeGlobal bool `json:"modeGlobal,omitempty"`
 	// NoDynScaling: the backend declares dynamic-scaling "false" (changes are applied by reloads only)
 	NoDynScaling bool `json:"noDynScaling,omitempty"`
 	// Pad (annotation modes): number of zeros written in front of each group's weight ("010" is ten)
@@ -207,6 +209,7 @@ func genC16Pipe(t *rapid.T) C16PipeCase {
 	if c.Mode != "gateway" {
 		c.Unlabeled = rapid.IntRange(0, 2).Draw(t, "unlabeled")
 		c.NoDynScaling = chanceT(t, "nodynscaling", 30)
+		c.ModeGlobal = (c.Mode == "deploy" || c.Mode == "pod") && chanceT(t, "modeglobal", 30)
 		if chanceT(t, "padded", 25) {
 			for range c.Groups {
 				c.Pad = append(c.Pad, rapid.IntRange(0, 2).Draw(t, "pad"))
@@ -234,8 +237,15 @@ func c16PipeWorld(c C16PipeCase) ([]*world.Obj, map[string]string) {
 	var objs []*world.Obj
 	owner := map[string]string{} // ip -> group label ("" unlabeled); draining marked with "!" prefix
 	objs = append(objs, &world.Obj{Kind: world.KIngressClass, Name: world.OurClass, Controller: world.ControllerName})
-	if c.Drain {
-		objs = append(objs, &world.Obj{Kind: world.KConfigMap, NS: world.CtlNS, Name: "haproxy-ingress", Data: map[string]string{"drain-support": "true"}})
+	if c.Drain || c.ModeGlobal {
+		data := map[string]string{}
+		if c.Drain {
+			data["drain-support"] = "true"
+		}
+		if c.ModeGlobal {
+			data["blue-green-mode"] = c.Mode
+		}
+		objs = append(objs, &world.Obj{Kind: world.KConfigMap, NS: world.CtlNS, Name: "haproxy-ingress", Data: data})
 	}
 	if c.Mode == "gateway" {
 		objs = append(objs,
@@ -317,7 +327,7 @@ func c16PipeWorld(c C16PipeCase) ([]*world.Obj, map[string]string) {
 	}
 	objs = append(objs, ep)
 	ann := map[string]string{c.Key: strings.Join(parts, ","), "initial-weight": fmt.Sprint(c.Initial)}
-	if c.Mode == "deploy" || c.Mode == "pod" {
+	if (c.Mode == "deploy" || c.Mode == "pod") && !c.ModeGlobal {
 		ann["blue-green-mode"] = c.Mode
 	}
 	if c.NoDynScaling {
